@@ -1192,7 +1192,7 @@ impl<'a> CompilerState<'a> {
                                         .unwrap()
                                         .as_str()
                                         .parse::<u32>()
-                                        .unwrap(),
+                                        .map_err(|_| self.syntax_error("Invalid bank number", start))?,
                                 )
                             }
                             Rule::superchip => memory = VariableMemory::Superchip,
@@ -1969,7 +1969,7 @@ impl<'a> CompilerState<'a> {
                         .unwrap()
                         .as_str()
                         .parse::<u32>()
-                        .unwrap();
+                        .map_err(|_| self.syntax_error("Invalid bank number", start))?;
                     if bank != 0 && inline {
                         return Err(
                             self.syntax_error("Bank spec and inlining are incompatible", start)
